@@ -82,7 +82,12 @@ def main():
         print("demo with change fails:", fails)
         meta["valid_seed"] = bool(ok_clean and f_ == 0 and fails)
         # remove the demo again so that checks see only the source change
-        sh("git clean -fdq -e target", cwd=W)
+        # (only the copied files: the patch itself may add new source files)
+        for spec in a.demo_copy:
+            try:
+                os.remove(os.path.join(W, spec.split(":")[1]))
+            except FileNotFoundError:
+                pass
     env2 = dict(env, VERIF_REPO=W, VERIF_WORK=WORK, VERIF_EVIDENCE_DIR=EVD)
     verdicts = {}
     for prop in a.props.split(","):
@@ -108,15 +113,15 @@ def main():
     if os.path.exists(mp):
         old = json.load(open(mp))
         if a.skip_validate:
-            for k in ("ran", "valid_seed", "needs_to_manifest"):
+            for k in ("ran", "valid_seed", "needs_to_manifest", "demo_copy", "demo_cmd", "breaks_property", "note", "superseded_by_fix", "caught_by_at_df7bae5"):
                 if k in old:
                     meta[k] = old[k]
             oc = old.get("checks", {})
             oc.update(meta["checks"])
             meta["checks"] = oc
             meta["caught_by"] = sorted(p for p, v in oc.items() if v["verdict"] == "VIOLATION")
-    meta["demo_copy"] = a.demo_copy
-    meta["demo_cmd"] = a.demo_cmd
+    meta.setdefault("demo_copy", a.demo_copy)
+    meta.setdefault("demo_cmd", a.demo_cmd)
     json.dump(meta, open(mp, "w"), indent=1)
     reset()
 
